@@ -32,6 +32,13 @@ SPEC = {
         "the refused 19th satellite, 129285 / 130074 with 0..24 waypoints (refusal when full must leave the message intact; "
         "records read back by an independent decoder of the published format, the library has no parser for them), 126464 "
         "with 0..74 PGNs, and the 28 two-bit items of a 127501 switch bank through the status helpers, in the quick tier too",
+        "alias wrappers: inline wrappers of the headers that forward exactly their own parameters to one Set/Parse function are "
+        "confirmed as pure forwarders by the translator (per overload); every other wrapper (flag-style overloads such as "
+        "Set/ParseN2kTransmissionParameters with bool flags, overloads that drop or default fields) is translated like a main "
+        "function (the evaluator inlines the function it calls; named bits of the status unions are placed LSB first, the "
+        "GCC/clang little-endian bit-field ABI) and gets its own pair `<pgn>w<k>`, obligations and harness tuples",
+        "every own-PGN parse in the harness is repeated on the payload cut to EVERY shorter length with two different garbage "
+        "fillings behind DataLen; return value and outputs must be identical (key C05:<pair>:junk-dependent)",
         "scaled fields are exchanged as integer codes: the harness calls the setter with code*resolution and converts the "
         "parsed double back with the parser-side resolution literal; the double<->code conversion itself is property C06. "
         "For 8-byte fields the harness searches the neighbouring doubles with the library's own Add8ByteDouble for one that "
